@@ -31,8 +31,8 @@ pub trait Backend: MemBuilder + Sized + 'static {
         false
     }
     /// into_raw_parts -> (optionally clone the parts and forget the original) -> from_raw_parts
-    fn raw_trip<Tr: ?Sized + Trait, E: Elem>(v: AnyVec<Tr, Self>, clone_parts: bool, ev: &mut Vec<Ev>) -> AnyVec<Tr, Self> {
-        let _ = (clone_parts, ev);
+    fn raw_trip<Tr: ?Sized + Trait, E: Elem>(v: AnyVec<Tr, Self>, clone_parts: bool, clone_fn: usize, ev: &mut Vec<Ev>) -> AnyVec<Tr, Self> {
+        let _ = (clone_parts, clone_fn, ev);
         v
     }
 }
@@ -68,8 +68,9 @@ macro_rules! resizable_backend {
                 }
                 true
             }
-            fn raw_trip<Tr: ?Sized + Trait, E: Elem>(v: AnyVec<Tr, Self>, clone_parts: bool, ev: &mut Vec<Ev>) -> AnyVec<Tr, Self> {
+            fn raw_trip<Tr: ?Sized + Trait, E: Elem>(v: AnyVec<Tr, Self>, clone_parts: bool, clone_fn: usize, ev: &mut Vec<Ev>) -> AnyVec<Tr, Self> {
                 let (len, cap) = (v.len(), v.capacity());
+                let drop_fn = lib(|| v.element_drop()).map(|f| f as usize);
                 let (layout, tid) = (v.element_layout(), v.element_typeid());
                 let parts = lib(|| v.into_raw_parts());
                 let parts = if clone_parts {
@@ -85,7 +86,10 @@ macro_rules! resizable_backend {
                     && parts.element_typeid == tid
                     && parts.element_typeid == TypeId::of::<E>()
                     && parts.element_layout == std::alloc::Layout::new::<E>()
-                    && parts.element_drop.is_some() == std::mem::needs_drop::<E>();
+                    && parts.element_drop.is_some() == std::mem::needs_drop::<E>()
+                    // the very functions the vector held (clone_fn == 0: not a Cloneable vector)
+                    && parts.element_drop.map(|f| f as usize) == drop_fn
+                    && (clone_fn == 0 || parts.element_clone as usize == clone_fn);
                 ev.push(Ev::Bool(ok));
                 lib(|| unsafe { AnyVec::<Tr, Self>::from_raw_parts(parts) })
             }
